@@ -551,6 +551,6 @@ func c16Oracle(c *C16Case) string {
 }
 
 func TestC16(t *testing.T) {
-	S("C16").Rule = "declarations in which every string attribute (long names, descriptions, value names, each choice, each default, masks, env keys, namespaces and env-namespaces, group descriptions, command names, aliases, positional names/descriptions) is a unique marker word, with hidden marks on options, groups and commands at any depth, default masks ('-' included), env keys under nested env-namespaces with custom delimiters x every selectable active chain (chosen by parsing the command words + --help, so the ErrHelp message is the text checked); oracle: every visible option/positional/sub-command row is present with all its parts, no marker of a hidden item and no masked default value occurs in help or man page, man page lists every visible option and command of the whole tree. non-trivial: hidden and visible items below the top level, or a default mask; distinct by (declaration signature, chain)"
+	S("C16").Rule = "declarations in which every string attribute (long names, descriptions, value names, each choice, each default, masks, env keys, namespaces and env-namespaces, group descriptions, command names, aliases, positional names/descriptions) is a unique marker word, with hidden marks on options, groups and commands at any depth, default masks ('-' included), env keys under nested env-namespaces with custom delimiters (1-3, sometimes 4-9 sub-commands per level) x every selectable active chain (chosen by parsing the command words + --help, so the ErrHelp message is the text checked); oracle: every visible option/positional/sub-command row is present with all its parts, no marker of a hidden item and no masked default value occurs in help or man page, man page lists every visible option and command of the whole tree. non-trivial: hidden and visible items below the top level, or a default mask; distinct by (declaration signature, chain)"
 	runProp(t, "C16", genC16, c16Oracle)
 }
